@@ -663,21 +663,34 @@ def covariate_rows_case(ctx, rng, idx):
         under, chi.LinearCovariateModel(n_cov=n_cov))
     if inner != 'P':
         cpm.set_population_parameters([[0, 0]])
-    pop = chi.ComposedPopulationModel([cpm, chi.PooledModel(n_dim=3)])
+    # (a second covariate-dependent sub-model with its own covariate
+    # columns in every second case: the rate constant k)
+    two = (idx // 12) % 2 == 1
+    n_cov2 = int(rng.integers(1, 3)) if two else 0
+    if two:
+        cpm2 = chi.CovariatePopulationModel(
+            chi.GaussianModel(), chi.LinearCovariateModel(n_cov=n_cov2))
+        cpm2.set_population_parameters([[0, 0]])
+        pop = chi.ComposedPopulationModel(
+            [cpm, cpm2, chi.PooledModel(n_dim=2)])
+    else:
+        pop = chi.ComposedPopulationModel([cpm, chi.PooledModel(n_dim=3)])
     pop.set_dim_names(pm.get_parameter_names())
     ppm = chi.PopulationPredictiveModel(pm, pop)
     names = ppm.get_parameter_names()
     a0, k_, b_, sig = 2.0, 0.3, 0.4, 1e-4
+    beta2 = rng.uniform(0.05, 0.2, size=n_cov2)
     beta = rng.uniform(5, 20, size=n_cov)
     if inner == 'L':
         beta = rng.uniform(0.3, 1.0, size=n_cov)
     base = {'P': [a0], 'G': [a0, 1e-4], 'T': [a0, 1e-4],
             'L': [float(np.log(a0)), 1e-5]}[inner]
-    values = base + list(beta) + [k_, b_, sig]
+    values = base + list(beta) + ([k_, 1e-7] if two else [k_]) + \
+        list(beta2) + [b_, sig]
     if len(names) != len(values):
         ctx.reject('unexpected parameter layout')
         return
-    cov = rng.uniform(0, 3, size=(n, n_cov))
+    cov = rng.uniform(0, 3, size=(n, n_cov + n_cov2))
     cov_arg = cov if rng.random() < 0.5 else cov.tolist()
     times = np.array([0.5, 1.5])
     feats = {'family': 'covariate_rows', 'model': which, 'n_samples': n,
@@ -717,11 +730,12 @@ def covariate_rows_case(ctx, rng, idx):
     for j, _id in enumerate(ids):
         rows = df[df['ID'] == _id].sort_values('Time')
         def a_of(row):
-            lin = float(np.sum(beta * row))
+            lin = float(np.sum(beta * row[:n_cov]))
             return float(np.exp(np.log(a0) + lin)) if inner == 'L' \
                 else a0 + lin
         a = a_of(cov[j])
-        want = a * np.exp(-k_ * times) + b_ * times
+        k_j = k_ + float(np.sum(beta2 * cov[j][n_cov:]))
+        want = a * np.exp(-k_j * times) + b_ * times
         got = rows['Value'].to_numpy(dtype=float)
         if got.shape != want.shape or np.max(np.abs(got - want) / (
                 1 + np.abs(want))) > 0.01:
@@ -729,6 +743,7 @@ def covariate_rows_case(ctx, rng, idx):
                           'covariate_row_ignored:' + which,
                           {'sample': j, 'covariates': cov[j],
                            'values': got, 'expected': want,
+                           'two_covariate_sub_models': two,
                            'expected_for_row_0':
                                a_of(cov[0]) *
                                np.exp(-k_ * times) + b_ * times}, feats)
